@@ -484,6 +484,48 @@ def run_check(prop, tier, seed, replay_file=None):
                         keep[eid] = ev
             del events, by_id, verdicts, by_trace
         by_id = keep
+        # confirmation pass: every case with a failed clause is executed again, alone on fewer processes and with three
+        # times the call budget, under the hash seed it failed with; a failure that does not recur (a budget exhausted on a
+        # loaded machine) is not reported.  Matching is by (case, call, clause).
+        unconfirmed = 0
+        if new and not replay_file:
+            cids = []
+            for eid, clause, feats in new:
+                cid = by_id[eid].get("cid")
+                if cid not in cids:
+                    cids.append(cid)
+            cids = cids[:400]
+            by_seed = {}
+            for eid, clause, feats in new:
+                ev = by_id[eid]
+                if ev.get("cid") in cids:
+                    by_seed.setdefault(str(ev.get("hashseed", "0")), set()).add(ev.get("cid"))
+            again = set()
+            for hs, cs in sorted(by_seed.items()):
+                evs2 = replay_pool(prop.lower(), [case_by[c] for c in sorted(cs)], os.path.join(work, "confirm"),
+                                   hashseeds=(int(hs),), nproc=4, extra_env={"VERIF_TIMEOUT_SCALE": "3"})
+                by_trace = {}
+                for ev in evs2:
+                    by_trace.setdefault(ev.get("trace", drv.TRACE), []).append(ev)
+                id2 = {ev["id"]: ev for ev in evs2}
+                for tm, evs in by_trace.items():
+                    v, _ = judge(tm, evs, os.path.join(work, "judge2-" + tm), consts=getattr(drv, "TRACE_CONSTS", ""))
+                    for eid, items in v.items():
+                        for clause, kind in items:
+                            if kind not in ("UNSPEC", "ADVISORY", "SPECDEFECT"):
+                                again.add((id2[eid].get("cid"), id2[eid].get("op"), clause))
+            kept = []
+            for eid, clause, feats in new:
+                ev = by_id[eid]
+                if ev.get("cid") in cids and (ev.get("cid"), ev.get("op"), clause) not in again:
+                    unconfirmed += 1
+                    clause_counts[clause] -= 1
+                    continue
+                kept.append((eid, clause, feats))
+            if unconfirmed:
+                print("NOTE property=%s %d failed clause(s) did not recur when the case was executed again with a larger call "
+                      "budget: not reported" % (prop, unconfirmed))
+            new = kept
         t2 = t1 + t_replay
         t3 = t2 + t_judge
         log("  [R] %d cases -> %d events replayed on the implementation in %.1fs" % (len(cases), n_events, t_replay))
@@ -530,7 +572,7 @@ def run_check(prop, tier, seed, replay_file=None):
                             "(call, projected operands, projected result) triples" +
                             ("; non-trivial = " + drv.NONTRIVIAL_RULE if hasattr(drv, "NONTRIVIAL_RULE") else ""),
                        failed_clauses=clause_counts, advisory_step_level_deviations=advisory, known_finding_events={k: len(v) for k, v in known.items()},
-                       new_violation_events=nviol, hashseeds=list(hashseeds), exhaustive=drv.exhaustive(tier)
+                       new_violation_events=nviol, unconfirmed_on_reexecution=unconfirmed, hashseeds=list(hashseeds), exhaustive=drv.exhaustive(tier)
                        if hasattr(drv, "exhaustive") else False,
                        bounds=drv.bounds(tier) if hasattr(drv, "bounds") else "",
                        foreign_clause_failures=stats.get("foreign", {}),
